@@ -236,7 +236,10 @@ def scenarios(ctx, n_cases):
         # failures of the interfaces that go through the general lossy formula are attributed to the recorded
         # finding only if that very formula with the conjugation exchanged reproduces the reference
         if len(fails) > n_before and (loss_kind in ("per-mode", "matrix") or dis_kind == "gram"):
-            general_path = [f for f in fails[n_before:] if f[0].split(":")[0] in ("table", "table-sum", "table-vs-single", "single", "single-range")]
+            # the single-outcome interface of an INDISTINGUISHABLE lossy state does not use the general formula (it goes through
+            # the loop-hafnian loss-channel matrix): its failures are never attributed to the recorded finding
+            absorb = ("table", "table-sum", "table-vs-single") + (("single", "single-range") if dis_kind != "one" else ())
+            general_path = [f for f in fails[n_before:] if f[0].split(":")[0] in absorb]
             if general_path and explained_by_conj_defect(st, ref, basis):
                 rest = [f for f in fails[n_before:] if f not in general_path]
                 del fails[n_before:]
